@@ -106,6 +106,14 @@ fn execute(ctx: &Ctx, c: &Cfg) -> Obs {
     match c.pre {
       "file" => sb.write(rel, b"PRE-EXISTING OUTPUT"),
       "dir" => sb.mkdir(rel),
+      "dangling" => {
+        // a dangling symbolic link at the output path, pointing into an existing directory
+        sb.mkdir("elsewhere");
+        if let Some(parent) = sb.path(rel).parent() {
+          std::fs::create_dir_all(parent).unwrap();
+        }
+        std::os::unix::fs::symlink(sb.path("elsewhere/through-link"), sb.path(rel)).unwrap();
+      }
       _ => {}
     }
   }
@@ -171,6 +179,17 @@ fn spec(c: &Cfg) -> (i32, bool) {
     ("default" | "file", "dir") => "absent", // target is a directory: the file inside it does not exist yet
     (_, p) => p,
   };
+  if c.pre == "dangling" {
+    // `Path::exists` follows links, so the check passes; the exclusive create then refuses the link.
+    // Documented effect: nothing is ever written through a link unless --force asks for replacement.
+    if c.fault == "read-error" {
+      return (1, false);
+    }
+    if c.dry {
+      return (0, false);
+    }
+    return if c.force { (0, true) } else { (1, false) };
+  }
   if has_path && matches!(c.output, "default" | "file" | "dir") && !c.force && final_pre != "absent" {
     return (1, false);
   }
@@ -199,8 +218,8 @@ fn spec(c: &Cfg) -> (i32, bool) {
 pub fn run(ctx: &Ctx) -> Report {
   let mut report = Report::new(
     "complete enumeration on the real binary, whole-sandbox snapshot (paths, types, sizes, SHA-1; mtimes of the input) before and after: --force x --dry-run x output {default, file, directory, -, missing parent, path through a file, /dev/full} \
-     x pre-existing output {absent, file, directory} x input {file, dir, stdin} x --name x failure cause {none, piece-length lint, private lint, bad glob, bad option, missing input, undecodable file name, dangling symlink and read error (/proc/self/mem) under --follow-symlinks}; \
-     plus verify/show/link frames; all cases non-trivial; distinct by configuration",
+     x pre-existing output {absent, file, directory, dangling symbolic link} x input {file, dir, stdin} x --name x failure cause {none, piece-length lint, private lint, bad glob, bad option, missing input, undecodable file name, dangling symlink and read error (/proc/self/mem) under --follow-symlinks}; \
+     plus interference runs (another process creates the output file after the existence check, while imdl is still reading standard input; with and without --force) and verify/show/link frames; all cases non-trivial; distinct by configuration",
   );
   report.exhaustive = ctx.replay.is_none();
   report.correspondences.push("C09.create: file-system effect and exit status of `imdl torrent create` = Imdlv.CreateFx.decision".into());
@@ -208,7 +227,7 @@ pub fn run(ctx: &Ctx) -> Report {
   for force in [false, true] {
     for dry in [false, true] {
       for output in ["default", "file", "dir", "stdout", "missing-parent", "through-file", "dev-full"] {
-        for pre in ["absent", "file", "dir"] {
+        for pre in ["absent", "file", "dir", "dangling"] {
           if pre != "absent" && !matches!(output, "default" | "file" | "dir") {
             continue;
           }
@@ -262,9 +281,8 @@ pub fn run(ctx: &Ctx) -> Report {
     } else if o.code != Some(want_exit) {
       pf = Some(format!("exit status {:?}, documented behaviour gives {want_exit}: {}", o.code, o.stderr.lines().last().unwrap_or("")));
     } else if want_write {
-      let rel = o.final_rel.clone().unwrap_or_default();
-      let written_ok = std::fs::read(format!("{}", rel)).is_ok() || true;
-      let _ = written_ok;
+      // under --force a dangling link at the output path is written through (O_TRUNC semantics): the bytes land on its target
+      let rel = if c.pre == "dangling" { "elsewhere/through-link".to_string() } else { o.final_rel.clone().unwrap_or_default() };
       if changed != vec![rel.clone()] {
         pf = Some(format!("on success exactly `{rel}` must be new or replaced; changed paths: {changed:?}"));
       } else if !matches!(o.after.get(&rel), Some(Entry::File { len, .. }) if *len > 0) {
@@ -292,6 +310,7 @@ pub fn run(ctx: &Ctx) -> Report {
     let (tgt, st, inner, open_fault) = match c.output {
       "stdout" => ("stdout", "absent", "absent", false),
       "default" | "file" => ("path", c.pre, "absent", false),
+      "dir" if c.pre == "dangling" => ("path", "dir", "dangling", false),
       "dir" => ("path", "dir", c.pre, false),
       "dev-full" => ("path", "file", "absent", true),
       _ => ("path", "absent", "absent", true),
@@ -299,7 +318,7 @@ pub fn run(ctx: &Ctx) -> Report {
     let fault = if c.fault == "bad-glob" && c.input == "stdin" { "none" } else { fault };
     let fault = if open_fault && fault == "none" { "open" } else { fault };
     let ans = model.ask(&format!("C09 create {} {} {tgt} {st} {inner} {fault}", c.force as u8, c.dry as u8));
-    let impl_class = if o.code == Some(1) { "fail".to_string() } else if changed.is_empty() { "noop".to_string() } else if c.output == "dir" || c.pre == "dir" { "write inner".to_string() } else { "write target".to_string() };
+    let impl_class = if o.code == Some(1) { "fail".to_string() } else if changed.is_empty() { "noop".to_string() } else if c.pre == "dangling" { "write link".to_string() } else if c.output == "dir" || c.pre == "dir" { "write inner".to_string() } else { "write target".to_string() };
     if ans != impl_class {
       report.fail("model", "C09.create", case, format!("implementation `{impl_class}` (changed {changed:?}), model `{ans}`"));
     }
@@ -308,6 +327,45 @@ pub fn run(ctx: &Ctx) -> Report {
   if ctx.replay.is_some() {
     return report;
   }
+  // ---- interference: a file appears at the output path after the existence check, while imdl is still reading its input
+  for force in [false, true] {
+    for trial in 0..ctx.n(3, 12) {
+      use std::io::Write;
+      let sb = Sandbox::new(&ctx.work, "c09x");
+      let mut child = std::process::Command::new(&ctx.imdl)
+        .args(["torrent", "create", "--input", "-", "--name", "late", "--output", "late.torrent"])
+        .args(if force { vec!["--force"] } else { vec![] })
+        .current_dir(&sb.root)
+        .stdin(std::process::Stdio::piped())
+        .stdout(std::process::Stdio::null())
+        .stderr(std::process::Stdio::piped())
+        .spawn()
+        .expect("spawn imdl");
+      let mut stdin = child.stdin.take().unwrap();
+      let _ = stdin.write_all(b"first half ");
+      let _ = stdin.flush();
+      // the output path is resolved and checked before standard input is read to its end
+      std::thread::sleep(std::time::Duration::from_millis(250 + 150 * trial));
+      sb.write("late.torrent", b"WRITTEN BY ANOTHER PROCESS");
+      let _ = stdin.write_all(b"second half");
+      drop(stdin);
+      let out = child.wait_with_output().expect("wait");
+      let after = std::fs::read(sb.path("late.torrent")).unwrap_or_default();
+      let case = json!({"interference": "file appears at the output path after the existence check", "force": force, "delay_ms": 250 + 150 * trial});
+      report.case(Some(fnv_str(&case.to_string())));
+      report.hit("interference:late-file");
+      let survived = after == b"WRITTEN BY ANOTHER PROCESS";
+      if !force && (!survived || out.status.code() != Some(1)) {
+        report.fail("property", "late-file-clobbered-without-force", case.clone(), format!("exit {:?}, the other process's file {}", out.status.code(), if survived { "survived" } else { "was replaced" }));
+      }
+      let ans = model.ask(&format!("C09 create {} 0 path absent absent none file", force as u8));
+      let impl_class = if out.status.code() == Some(1) { "fail" } else if survived { "noop" } else { "write target" };
+      if ans != impl_class && !(force && !survived) {
+        report.fail("model", "C09.create", case, format!("implementation `{impl_class}`, model `{ans}`"));
+      }
+    }
+  }
+  report.model_requests = model.requests;
   // ---- verify / show / link never modify anything
   for sub in [vec!["torrent", "verify", "--input", "t.torrent", "--content", "content"], vec!["torrent", "show", "--input", "t.torrent"], vec!["torrent", "link", "--input", "t.torrent"], vec!["torrent", "verify", "--input", "t.torrent", "--content", "missing"]] {
     let sb = Sandbox::new(&ctx.work, "c09r");
